@@ -168,7 +168,8 @@ def check_property(prop, tier, seed):
             tail = "" if (r.replay and r.replay.get("confirmed")) else " no-failing-input-found"
             violation_lines.append(f"VIOLATION property={prop} replay={path}{tail}")
             unknown_refuted.append(r)
-    if len(discharged) == 0 and not refuted:
+    bounded_only = bool(getattr(mod, "META", {}).get("bounded_only"))      # a property checked by enumeration only (declared, level other)
+    if len(discharged) == 0 and not refuted and not (bounded_only and len(bounded) > 0):
         faults.append(ObResult(name=f"{prop}/zero-obligations", status=R.FAULT, prop=prop,
                                detail="no obligation was discharged in this run"))
     if faults:
